@@ -1,5 +1,5 @@
 (* C18 Request accessors are total and cookies round-trip byte for byte. *)
-Require Import Base Escape EscapeProofs.
+Require Import Base Escape EscapeProofs Query QueryProofs.
 
 (* a cookie value written with SetCookie (url.QueryEscape) and sent back by a client is read back
    (url.QueryUnescape) byte for byte, for every byte string *)
@@ -23,9 +23,27 @@ Theorem C18_default_rule_absent : forall (A : Type) (conv : str -> A) d z,
   with_default [] conv d z = match d with Some x => x | None => z end.
 Proof. exact @with_default_absent. Qed.
 
+(* how the Query* accessors find their value in the raw query string (Request.URL.Query().Get(name): net/url.ParseQuery
+   with the error dropped, then the first value): whatever pairs a client writes - any byte strings as keys and
+   values, escaped and joined with '&' - are read back exactly, in order; so an accessor sees the first value
+   written for its name, byte for byte, and "" (hence the default rule above) for a name that was not written *)
+Theorem C18_query_parse_encode : forall l, Forall bytes_pair l -> parse_query (encode_pairs l) = l.
+Proof. exact parse_encode. Qed.
+Theorem C18_query_first_value : forall l name, Forall bytes_pair l ->
+  query_get (encode_pairs l) name = match find (fun kv => str_eqb (fst kv) name) l with Some kv => snd kv | None => [] end.
+Proof. exact query_get_encoded. Qed.
+(* a piece that does not parse (a ';' in it, a bad escape) is dropped and hides nothing behind it *)
+Theorem C18_query_bad_piece_skipped : forall a b, free_of 38%N a = true ->
+  parse_query (a ++ 38%N :: b) = (match parse_piece a with Some kv => [kv] | None => [] end) ++ parse_query b.
+Proof. exact parse_query_app. Qed.
+
 (* totality is structural: every accessor of the model is a total function of (value, default).
-   QueryFloat64 (strconv.ParseFloat) is an oracle and is not modelled; url.Values decoding of the raw
-   query is not modelled (the correspondence encodes values with url.Values.Encode). *)
+   QueryFloat64 (strconv.ParseFloat) is an oracle and is not modelled. *)
+
+Example C18_example_query :
+  query_get [113;61;37;122;122;38;97;61;49;59;113;61;50;38;113;61;97;43;98;38;113;61;51]%N [113]%N = [97;32;98]%N /\
+  parse_query [61;118;38;38;113]%N = [([], [118]%N); ([113]%N, [])].
+Proof. vm_compute. repeat split. Qed.
 
 Example C18_example :
   cookie_roundtrip [97;32;59;34;200;37]%N = [97;32;59;34;200;37]%N /\
@@ -36,3 +54,4 @@ Proof. vm_compute. repeat split. Qed.
 
 Redirect "assum/C18.1" Print Assumptions C18_cookie_roundtrip.
 Redirect "assum/C18.2" Print Assumptions C18_escaped_value_is_cookie_safe.
+Redirect "assum/C18.3" Print Assumptions C18_query_first_value.
